@@ -142,10 +142,8 @@ class MPLSVPN(NLRI):
         last_label = labels[-1]
         for label in labels[:-1]:
             data += struct.pack('!L', label << 4)[1:]
-        if last_label != 0:
-            data += struct.pack('!L', (last_label << 4 | 1))[1:]
-        else:
-            data += b'\x00\x00\x00'
+        # the last label carries the bottom-of-stack bit, label 0 (explicit null) included
+        data += struct.pack('!L', (last_label << 4 | 1))[1:]
         return data
 
     @classmethod
